@@ -3,7 +3,7 @@ EXTENDS Normalise, TraceBase
 T_Alphabet == {}
 T_Max == 0
 T_NoDefect == {}
-Verdict(r) == IF r.raised # "" THEN <<"raised">> ELSE Fails(NormaliseClauses(r.in, r.out, r.out2))
+Verdict(r) == IF r.raised # "" THEN <<"raised">> ELSE Fails(NormaliseClauses(r.in, r.out, r.out2) \o << <<"views-agree", SameContent(r.outAbs, r.out)>> >>)
 TraceInit == /\ TraceStart /\ input = <<>> /\ pos = 1 /\ open = <<>> /\ firstOn = <<>> /\ tsIn = <<>> /\ ksIn = <<>>
              /\ buf = 0 /\ out = <<>> /\ done = FALSE
 TraceNext == HasLine /\ Advance /\ UNCHANGED vars
